@@ -874,6 +874,21 @@ def rule_r8(prog, res):
     vals = [c for c in calls_in(f.node) if call_name(c) in (
         'validate', 'assertValid', 'assert_')]
     res.floor('R8', 'validate() calls in __validate_lxml', len(vals), 1)
+    for c in vals:
+        lk = _enclosing_lock(c, f.node, locks)
+        where = '%s:%d' % (f.module.relpath, c.lineno)
+        res.ob('R8', where, '%s calls %s %s' % (
+            f.qualname, unparse(c.func), 'under the validation lock' if lk
+            is not None else 'outside the validation lock'),
+            'ok' if lk is not None else 'VIOLATED')
+        if lk is None:
+            res.finding('R8', 'XmlDocument.__validate_lxml|validate-outside-'
+                        'lock', where, 'a validate() call on the shared '
+                        'schema runs outside the lock: every validate() '
+                        'clears and refills the shared error log, so it can '
+                        'wipe or replace the entry another request is about '
+                        'to read under the lock (faultstring None, or '
+                        'somebody else\'s error)')
     reads = [a for a in walk_no_defs(f.node) if isinstance(a, ast.Attribute)
              and a.attr == 'error_log' and unparse(a.value).startswith(
                  'self.')]
@@ -985,6 +1000,13 @@ _P = 'spyne/protocol/_base.py'
 _M = 'spyne/util/memo.py'
 
 MUTANTS = [
+    Mutant('validate-fast-path-outside-lock', 'R8', 'fire',
+           'spyne/protocol/xml.py',
+           in_func('XmlDocument.__validate_lxml',
+                   "        with _validation_lock:\n",
+                   "        self.validation_schema.validate(payload)\n"
+                   "        with _validation_lock:\n"),
+           'validate-outside-lock'),
     Mutant('error-log-read-after-unlock', 'R8', 'fire',
            'spyne/protocol/xml.py',
            in_func('XmlDocument.__validate_lxml',
@@ -1057,9 +1079,9 @@ MUTANTS = [
                    "        indexes = {}\n"), 'mutated-after-publish'),
     Mutant('cdict-intermediate-stores', 'R4', 'fire', 'spyne/util/cdict.py',
            in_func('cdict.__getitem__',
-                   "                    self[cls] = retval\n"
-                   "                    return retval\n",
-                   "                    self[cls] = retval\n"),
+                   "                self[cls] = retval\n"
+                   "                return retval\n",
+                   "                self[cls] = retval\n"),
            'multiple-stores'),
     Mutant('cdict-store-via-dict', 'R4', 'benign', 'spyne/util/cdict.py',
            in_func('cdict.__getitem__', "self[cls] = retval",
